@@ -992,7 +992,8 @@ def run(ctx):
     ctx.assume("single faults only; faulted streams longer than full_split_upto records use the reduced split set")
     ctx.assume("out-of-zone records, deletes of absent / adds of present records, AXFR duplicates, SOA(T) SOA(T) "
                "and serial differences of exactly 2^31 are judged 'either' (only: error => unchanged, "
-               "success => one of the acceptable zones)")
+               "success => one of the acceptable zones); on the RRset-grouped route a deletion of a record the "
+               "zone never held and the stream never deleted is judged invalid (must fail, zone untouched)")
     ctx.extra["bounds"] = dict(cfg, per_task=per_task)
     ctx.extra["scenarios"] = {s["name"]: len(s["stream"]) for s in scns}
     ctx.extra["zone_kinds"] = ["%s/relativize=%s" % zk for zk in ZONE_KINDS]
